@@ -27,7 +27,7 @@ def spec():
         Row(None, 'E3', None, guard=6, actions=['smi0']),
         Row(None, 'E3', None, guard=7, actions=['smi1']),
         Row(None, 'E2', None, guard=6, actions=['smi2']),
-        Row(None, 'E4', None, guard=12),                         # guard-only machine-level internal row (g_internal of the fsm)
-        Row(None, 'E4', None, actions=['smi4']),                 # ... in front of an action-only one (a_internal of the fsm)
+        Row(None, 'E4', None, actions=['smi4']),                 # action-only machine-level internal row (a_internal of the fsm)
+        Row(None, 'E4', None, guard=12),                         # guard-only one (g_internal of the fsm): declared later, tried first
     ])
     return {'name': 'M02', 'events': ['E0', 'E1', 'E2', 'E3', 'E4'], 'flags': [], 'root': root}
